@@ -108,6 +108,24 @@ Qed.
 Lemma ser_root_value_eq m : ser_root_value m = map ser_kv (order3 m).
 Proof. unfold ser_root_value. rewrite ser_value_tab. reflexivity. Qed.
 
+Lemma ser_plain_tab m : ser_plain (TTab m) = EInl (map (fun kv => (fst kv, ser_plain (snd kv))) m).
+Proof.
+  cbn [ser_plain]. f_equal. induction m as [|[k x] r IH]; simpl; [reflexivity|]. rewrite IH. reflexivity.
+Qed.
+
+(* the serializer of either kind: tn = true `impl Serialize for Value`, tn = false an impl that keeps
+   its own order (ser_plain) *)
+Definition ser_g (tn : bool) (v : tv) : ev := if tn then ser_value v else ser_plain v.
+Definition ser_kv_g (tn : bool) (kv : bytes * tv) : bytes * ev := (fst kv, ser_g tn (snd kv)).
+Definition ordn (tn : bool) (m : list (bytes * tv)) : list (bytes * tv) := if tn then order3 m else m.
+
+Lemma ser_g_leaf tn t : ser_g tn (TLeaf t) = ELeaf t.
+Proof. destruct tn; reflexivity. Qed.
+Lemma ser_g_arr tn l : ser_g tn (TArr l) = EArr (map (ser_g tn) l).
+Proof. destruct tn; reflexivity. Qed.
+Lemma ser_g_tab tn m : ser_g tn (TTab m) = EInl (map (ser_kv_g tn) (ordn tn m)).
+Proof. destruct tn; unfold ser_g, ordn; [apply ser_value_tab|apply ser_plain_tab]. Qed.
+
 Lemma fmt_value_inl ml m :
   fmt_value ml (EInl m) = VInl (map (fun kv => (fst kv, fmt_value ml (snd kv))) m).
 Proof.
